@@ -34,6 +34,7 @@ pub fn err_msg(m: &str) -> Error { Error(if m.len() == 12 { 1 } else { 2 }) }
 static mut READY: [bool; 2] = [false; 2];      // direction 0 = c2s, 1 = s2c completes when polled in this round
 static mut RESULT_OK: [bool; 2] = [true; 2];   // ... with Ok(()) or with Err
 static mut DONE: [bool; 2] = [false; 2];
+static mut FAILED: [bool; 2] = [false; 2];       // the direction completed with an error
 static mut POLLED_AFTER_DONE: bool = false;
 static mut POLLED_THIS_ROUND: [bool; 2] = [false; 2];
 static mut TICK_DUE: bool = false;             // the 1 s interval has elapsed and has not been observed yet
@@ -50,7 +51,7 @@ impl Future for CopyFut {
         let d = self.0;
         if DONE[d] { POLLED_AFTER_DONE = true; }    // an async fn panics when polled after completion
         POLLED_THIS_ROUND[d] = true;
-        if READY[d] { DONE[d] = true; Poll::Ready(if RESULT_OK[d] { Ok(()) } else { Err(Error(10 + d as u8)) }) } else { Poll::Pending }
+        if READY[d] { DONE[d] = true; FAILED[d] = !RESULT_OK[d]; Poll::Ready(if RESULT_OK[d] { Ok(()) } else { Err(Error(10 + d as u8)) }) } else { Poll::Pending }
     } }
 }
 pub struct Interval(pub u8);
@@ -161,6 +162,8 @@ fn bidi_loop_idle_and_close() {
                     assert!(DONE[0] || POLLED_THIS_ROUND[0]);
                     assert!(DONE[1] || POLLED_THIS_ROUND[1]);
                     assert!(!(DONE[0] && DONE[1]));
+                    // C04: an error (abort) of either direction ends the tunnel at once, it is not parked
+                    assert!(!FAILED[0] && !FAILED[1], "a direction failed, yet the tunnel stays open");
                 }
                 Poll::Ready(Ok(())) => {
                     assert!(DONE[0] && DONE[1], "Ok before both directions ended");
